@@ -1708,7 +1708,8 @@ namespace awkward {
 
       ContentPtrVec contents;
       for (auto content : contents_) {
-        contents.push_back(content.get()->getitem_next(head,
+        ContentPtr trimmed = content.get()->getitem_range_nowrap(0, length());
+        contents.push_back(trimmed.get()->getitem_next(head,
                                                        emptytail,
                                                        advanced));
       }
